@@ -1025,6 +1025,51 @@ func checkC19(c *Check) {
 		}
 	}
 
+	// ---- R2c: the one-valued form. Bucket channels are closed (sweep, shutdown, eviction): a receive without the ok
+	// flag cannot tell "a connection" from "closed" – it yields nil, and a method call on it panics (in a goroutine of
+	// its own that takes the process down). `for v := range ch` is the safe one-valued form.
+	c.Rule("R2c", "a receive from a bucket channel whose value is used takes the ok flag (or is a range loop): bucket channels are closed by sweeps and at shutdown, and a one-valued receive from a closed channel yields a nil connection", 0)
+	{
+		n := 0
+		for _, fi := range funcs {
+			if fi.Decl.Body == nil {
+				continue
+			}
+			ast.Inspect(fi.Decl.Body, func(x ast.Node) bool {
+				var recv *ast.UnaryExpr
+				var val ast.Expr
+				switch s := x.(type) {
+				case *ast.AssignStmt:
+					if len(s.Lhs) == 1 && len(s.Rhs) == 1 {
+						if u, ok := ast.Unparen(s.Rhs[0]).(*ast.UnaryExpr); ok && u.Op == token.ARROW {
+							recv, val = u, s.Lhs[0]
+						}
+					}
+				case *ast.CallExpr:
+					// (<-ch).Close()
+					if sel, ok := s.Fun.(*ast.SelectorExpr); ok {
+						if u, ok := ast.Unparen(sel.X).(*ast.UnaryExpr); ok && u.Op == token.ARROW && isBucketChan(u.X) {
+							n++
+							c.Hold("R2c", fi.Name()+":recv"+itoa(n), s.Pos(), false, "a method is called on the value of a one-valued receive from a bucket channel: when the bucket has been closed meanwhile (sweep, shutdown) the value is nil and the call panics")
+						}
+					}
+				}
+				if recv == nil || !isBucketChan(recv.X) {
+					return true
+				}
+				if id, ok := val.(*ast.Ident); ok && id.Name == "_" {
+					return true
+				}
+				n++
+				c.Hold("R2c", fi.Name()+":recv"+itoa(n), recv.Pos(), false, "the connection is received from a bucket channel without the ok flag: when the bucket is closed meanwhile (a clean-up sweep, Close of the pool, eviction of the key) the receive yields nil and the first method call on it panics – in a goroutine of its own, which ends the process")
+				return true
+			})
+		}
+		if n == 0 {
+			c.HoldConst("R2c", "no-one-valued-receive", token.NoPos, true, "")
+		}
+	}
+
 	// ---- R7 the user side: what Get returned is used only when there is something, and a connection that was taken
 	// or opened is owned by somebody on every path
 	c.Rule("R7", "connectionForDomain: the value the pool returned is asserted / used only when it is non-nil; a connection taken from the pool or newly opened is, on every path, either recorded in the delivery's table (whose Close returns or closes it) or closed", 2)
